@@ -230,14 +230,35 @@ class Ref:
         raise NotFound()
 
     def e_exists(self, expr):
+        alts = expr.split("|")
         try:
-            self.traverse(expr.split("|")[0].strip(), call=False)
+            self.traverse(alts[0] if "first_alt_unstripped" in self.pinned else alts[0].strip(), call=False)
             return 1
         except NotFound:
-            return 0
+            pass
+        # `exists:a | b`: the remaining alternatives are expressions of their own
+        for a in alts[1:]:
+            try:
+                v = self.evaluate(a.strip())
+            except NotFound:
+                continue
+            if v is DEFAULT or truth(v):
+                return 1
+            raise OutOfScope("exists: with a later alternative that is found but false")
+        return 0
 
     def e_nocall(self, expr):
-        return self.traverse(expr, call=False)
+        alts = expr.split("|")
+        try:
+            return self.traverse(alts[0] if "first_alt_unstripped" in self.pinned else alts[0].strip(), call=False)
+        except NotFound:
+            pass
+        for a in alts[1:]:
+            try:
+                return self.evaluate(a.strip())
+            except NotFound:
+                continue
+        raise NotFound()
 
     def e_not(self, expr):
         try:
